@@ -844,7 +844,11 @@ def recap(mol, idx):
     a = rw.GetAtomWithIdx(idx)
     nbr = a.GetNeighbors()[0]
     order = int(rw.GetBondBetweenAtoms(idx, nbr.GetIdx()).GetBondTypeAsDouble())
-    if nbr.GetNoImplicit() or nbr.GetNumExplicitHs() > 0:
+    if nbr.GetIsAromatic() and not (nbr.GetNoImplicit() or nbr.GetNumExplicitHs() > 0):
+        # an aromatic atom must carry its hydrogen explicitly to stay kekulisable (`p` -> `[pH]`, `n` -> `[nH]`)
+        nbr.SetNumExplicitHs(nbr.GetTotalNumHs() + order)
+        nbr.SetNoImplicit(True)
+    elif nbr.GetNoImplicit() or nbr.GetNumExplicitHs() > 0:
         nbr.SetNumExplicitHs(nbr.GetNumExplicitHs() + order)
     rw.RemoveAtom(idx)
     m = rw.GetMol()
